@@ -103,6 +103,15 @@ Qed.
 Lemma schedule_perm {A : Type} sched (l : list A) : Permutation l (schedule sched l).
 Proof. apply schedule_aux_perm. Qed.
 
+Lemma schedule_aux_cons {A : Type} f n s (l : list A) :
+  l <> [] ->
+  schedule_aux (S f) (n :: s) l =
+  match extract (Nat.modulo n (length l)) l with
+  | Some (x, r) => x :: schedule_aux f s r
+  | None => l
+  end.
+Proof. destruct l; [congruence | reflexivity]. Qed.
+
 Lemma schedule_complete {A : Type} (l l' : list A) :
   Permutation l l' -> exists sched, schedule sched l = l'.
 Proof.
@@ -115,9 +124,9 @@ Proof.
       apply Permutation_trans with l; [apply Permutation_sym, (extract_perm _ _ _ _ E) | exact Hp]. }
     destruct (IH r Hr) as [s Hs].
     exists (n :: s). unfold schedule.
-    pose proof (extract_length _ _ _ _ E) as Hl. rewrite Hl. simpl.
-    destruct l as [|a l0]; [simpl in Hn; lia|].
-    rewrite <- Hl. rewrite Nat.mod_small by exact Hn. rewrite E. simpl.
+    pose proof (extract_length _ _ _ _ E) as Hl.
+    rewrite Hl. rewrite schedule_aux_cons by (intro Hc; subst l; simpl in Hn; lia).
+    rewrite Nat.mod_small by exact Hn. rewrite E.
     unfold schedule in Hs. rewrite Hs. reflexivity.
 Qed.
 
@@ -384,7 +393,9 @@ Section Proofs.
   Lemma groups_length_le items : length (groups items) <= length items.
   Proof.
     destruct (Inv_groups items) as [_ [Hwf [_ Hperm]]].
-    apply Permutation_length in Hperm. unfold ids in Hperm. rewrite map_length in Hperm. rewrite <- Hperm.
+    apply Permutation_length in Hperm. unfold ids in Hperm. rewrite map_length in Hperm.
+    enough (Hle : length (groups items) <= length (flat_map g_ids (groups items))).
+    { eapply Nat.le_trans; [exact Hle|]. apply Nat.eq_le_incl. exact Hperm. }
     clear Hperm. induction Hwf as [|g gs Hg _ IH]; simpl; [lia|].
     rewrite app_length. destruct Hg as [_ [_ [Hne _]]]. destruct (g_ids g); [congruence | simpl; lia].
   Qed.
@@ -552,6 +563,13 @@ Section Proofs.
     Definition expected_out (items : list item) : list (bytes * outcome) :=
       flat_map (fun g => map (fun id => (id, check (g_rep g))) (g_ids g)) (groups items).
 
+    Lemma expected_ids (gs : list group) :
+      map fst (flat_map (fun g => map (fun id => (id, check (g_rep g))) (g_ids g)) gs) = flat_map g_ids gs.
+    Proof.
+      induction gs as [|g0 l IHl]; simpl; [reflexivity|].
+      rewrite map_app, IHl. f_equal. rewrite map_map. simpl. apply map_id.
+    Qed.
+
     Lemma batch_closed_form sched st (items : list item) :
       validate maxn items = None -> good st ->
       resp_of (batch key keqb eval maxn sched st items) =
@@ -604,10 +622,7 @@ Section Proofs.
         replace (keqb (key (g_rep g)) (key p)) with true in Hnc; [exact Hnc|].
         symmetry. apply keqb_spec. congruence. }
       apply lookup_id_in.
-      - assert (Hm : map fst (expected_out items) = flat_map g_ids (groups items)).
-        { unfold expected_out. induction (groups items) as [|g0 l IHl]; simpl; [reflexivity|].
-          rewrite map_app, IHl. f_equal. rewrite map_map. simpl. apply map_id. }
-        rewrite Hm. apply Permutation_NoDup with (ids items); [apply Permutation_sym; exact Hperm|].
+      - unfold expected_out. rewrite expected_ids. apply Permutation_NoDup with (ids items); [apply Permutation_sym; exact Hperm|].
         apply validate_none_iff in Hv as [_ [_ [_ Hnd]]]. exact Hnd.
       - unfold expected_out. apply in_flat_map. exists g. split; [exact Hgin|].
         rewrite <- Hc. apply in_map_iff. exists id. auto.
@@ -665,7 +680,7 @@ Section ApiProofs.
 
     (* the API answer of an accepted batch is the image, under the error-code mapping, of the
        standalone outcomes *)
-    Theorem api_batch_eq_individual_lemma sched st (items : list (bytes * P)) :
+    Theorem api_batch_results_lemma sched st (items : list (bytes * P)) :
       items <> [] ->
       forallb (fun it => id_pattern_ok (fst it)) items = true ->
       validate maxn items = None ->
@@ -728,4 +743,54 @@ Lemma batch_order_irrelevant_refuted_lemma :
 Proof.
   exists [([97%N], 1%N); ([98%N], 2%N)], [0], [1].
   split; [reflexivity|]. vm_compute. discriminate.
+Qed.
+
+(* ------------------------------------------------------------------ statements of Props/C07.v assembled from the lemmas above *)
+Lemma batch_validation_lemma :
+  forall (P : Type) (maxn : N) (items : list (bytes * P)),
+    (validate maxn items = None <->
+       items <> [] /\ (N.of_nat (length items) <= maxn)%N /\
+       Forall (fun it => fst it <> []) items /\ NoDup (map fst items)) /\
+    (validate maxn items = Some RTooMany <-> (maxn < N.of_nat (length items))%N) /\
+    (validate maxn items = Some REmptyBatch <-> items = []).
+Proof.
+  intros P maxn items. split; [exact (validate_none_iff maxn items)|].
+  split; [exact (validate_too_many maxn items) | exact (validate_empty_batch maxn items)].
+Qed.
+
+Lemma schedule_exhaustive_lemma :
+  forall (A : Type) (l : list A),
+    (forall sched, Permutation l (schedule sched l)) /\
+    (forall l', Permutation l l' -> exists sched, schedule sched l = l').
+Proof. intros A l. split; [intro s; apply schedule_perm | apply schedule_complete]. Qed.
+
+Lemma api_batch_eq_individual_lemma :
+  forall (P K St : Type) (key : P -> K) (keqb : K -> K -> bool) (eval : St -> P -> outcome * St) (maxn : N),
+    (forall a b, keqb a b = true <-> a = b) ->
+    (forall sched st (items : list (bytes * P)),
+       items = [] \/ forallb (fun it => id_pattern_ok (fst it)) items = false ->
+       api_batch key keqb eval maxn sched st items = (ApiInvalidArgument, [], st)) /\
+    (forall sched st (items : list (bytes * P)) idx,
+       fst (fst (api_batch key keqb eval maxn sched st items)) <> ApiValidationError (REmptyId idx)) /\
+    (forall (check : P -> outcome) (good : St -> Prop),
+       (forall st p, good st -> good (snd (eval st p))) ->
+       (forall st p, good st -> fst (eval st p) = check p) ->
+       forall (sem_eqb : P -> P -> bool),
+         (forall a b, sem_eqb a b = true -> check a = check b) ->
+         forall sched st (items : list (bytes * P)),
+           items <> [] ->
+           forallb (fun it => id_pattern_ok (fst it)) items = true ->
+           validate maxn items = None ->
+           no_key_collision key keqb sem_eqb items = true ->
+           good st ->
+           exists out,
+             fst (fst (api_batch key keqb eval maxn sched st items)) =
+               ApiResults (map (fun q => (fst q, api_item_of (snd q))) out) /\
+             Permutation (map fst out) (map fst items) /\
+             forall id p, In (id, p) items -> lookup_id id out = Some (check p)).
+Proof.
+  intros P K St key keqb eval maxn Hk. split; [|split].
+  - intros sched st items H. apply api_batch_invalid_argument. exact H.
+  - intros sched st items idx. apply api_batch_never_empty_id. exact Hk.
+  - intros check good Hs Ha sem_eqb Hr sched st items. apply (api_batch_results_lemma key keqb eval maxn Hk check good Hs Ha sem_eqb Hr).
 Qed.
